@@ -77,6 +77,8 @@ class Report:
                                      "detail": sample if sample is not None else detail})
 
     def violation(self, rid: str, key: str, msg: str, loc: str = "", detail: Any = None):
+        if any(v["rule"] == rid and v["key"] == key and v["at"] == loc for v in self.violations):
+            return
         r = self.rules[rid]
         r["instances"] += 1
         r["violations"] += 1
